@@ -168,6 +168,52 @@ class C11Bounded(Bounded):
             want = ['a=1 and not u="adm"', 'b=2 and not u="adm"']
             if sorted(got) != sorted(want):
                 fail("global+filter", f"a stream rule / global document (product windows) / rule / filter on category c via {route}: {got}, expected both rules narrowed by the filter: {want}", [route])
+        # a rule built with the constructor (id given as text) is found by a filter that names its id; a filter whose log source has an
+        # EMPTY text for an attribute covers only rules with that empty text
+        import dataclasses
+        from uuid import UUID
+        for idform in ("text", "UUID", "upper-case text"):
+            ev += 1
+            nontriv += 1
+            try:
+                parsed = SigmaRule.from_dict({"title": "r", "logsource": {"category": "c"}, "detection": {"sel": {"a": 1}, "condition": "sel"}})
+                rid = {"text": RID, "UUID": UUID(RID), "upper-case text": RID.upper()}[idform]
+                built = SigmaRule(title="r", id=rid, logsource=parsed.logsource, detection=parsed.detection)
+                flt = SigmaFilter.from_dict({"title": "f", "logsource": {"category": "c"}, "filter": {"rules": [RID], "x": {"u": "adm"}, "condition": "not x"}})
+                got = b().convert(SigmaCollection([built, flt]))
+            except Exception as e:
+                got = [f"{type(e).__name__}: {e}"]
+            if got != ['a=1 and not u="adm"']:
+                fail("constructor-id", f"rule built with SigmaRule(id=<{idform}>) and a filter naming that id: {got}, expected ['a=1 and not u=\"adm\"']", [idform])
+        for fls, rls, applies_ in (({"category": "c", "service": ""}, {"category": "c", "service": "s"}, False), ({"category": "c", "service": ""}, {"category": "c"}, False), ({"category": "c", "product": ""}, {"category": "c", "product": "p", "service": "s"}, False),
+                                   ({"category": "c", "service": ""}, {"category": "c", "service": ""}, True)):
+            ev += 1
+            nontriv += 1
+            try:
+                got = b().convert(SigmaCollection.from_dicts([{"title": "r", "logsource": rls, "detection": {"sel": {"a": 1}, "condition": "sel"}}, {"title": "f", "logsource": fls, "filter": {"rules": "any", "x": {"u": "adm"}, "condition": "not x"}}]))
+            except Exception as e:
+                got = [f"{type(e).__name__}: {e}"]
+            want = ['a=1 and not u="adm"'] if applies_ else ["a=1"]
+            if got != want:
+                fail("empty-text-logsource", f"filter log source {fls} on a rule with log source {rls}: {got}, expected {want} (an attribute given as empty text is a value, not 'unset')", [fls, rls])
+        # two filters on one rule that both say `them` / a pattern over everything: each ranges over ITS OWN detections only
+        tdocs = [{"title": "r1", "name": "r1", "logsource": {"category": "c"}, "detection": {"sel": {"a": 1}, "condition": "sel"}},
+                 {"title": "f1", "logsource": {"category": "c"}, "filter": {"rules": "any", "x": {"u": "adm"}, "y": {"v": "svc"}, "condition": "not all of them"}},
+                 {"title": "f2", "logsource": {"category": "c"}, "filter": {"rules": ["r1"], "z": {"w": "sys"}, "condition": "not 1 of them"}}]
+        for them2, tperm in itertools.product(("them", "*"), itertools.permutations(range(3))):
+            ev += 1
+            nontriv += 1
+            docs = copy.deepcopy([tdocs[i] for i in tperm])
+            for d in docs:
+                if "filter" in d:
+                    d["filter"]["condition"] = d["filter"]["condition"].replace("them", them2)
+            try:
+                got = b().convert(SigmaCollection.from_dicts(docs))
+            except Exception as e:
+                got = [f"{type(e).__name__}: {e}"]
+            want = ('a=1 and not (u="adm" and v="svc") and not w="sys"', 'a=1 and not w="sys" and not (u="adm" and v="svc")')
+            if len(got) != 1 or got[0] not in want:
+                fail("two-them", f"two filters on one rule, conditions 'not all of {them2}' (x, y) and 'not 1 of {them2}' (z), documents in order {[tdocs[i]['title'] for i in tperm]}: {got}, expected {want[0]!r} (filters in either order)", [them2, list(tperm)])
         # rules with a LIST of conditions, also derived from the previous document (`action: repeat`): every rule is narrowed once, in every
         # condition, and the caller's documents are not rewritten (the filter works on the rule, not on the parsed YAML it came from)
         ldocs = [{"title": "a", "name": "a", "logsource": {"category": "c"}, "detection": {"sel": {"f": 1}, "other": {"g": 2}, "condition": ["sel", "other"]}},
@@ -190,5 +236,5 @@ class C11Bounded(Bounded):
             elif variant != "list condition + repeat" and docs != snapshot:
                 fail("input-rewritten", f"from_dicts with a filter rewrote the caller's documents ({variant}): {[d.get('detection', {}).get('condition') for d in docs]}", [variant])
         return {"evaluations": ev, "distinct_nontrivial": nontriv, "failures": fails, "failure_counts": seen,
-                "bound": f"list-valued conditions with action repeat (3 variants); a filter after a global document (2 routes); all orders of three filters through seven routes; {len(rule_dets)} rule shapes x {len(filt_dets)} filter shapes x {len(logsources)} log source relations x {len(targets)} rule-list forms" + (" (every third)" if tier == "quick" else ""),
+                "bound": f"constructor-built rules by id (3 id forms), empty-text log source attributes (4); two filters with `them` / `*` on one rule (12 orders); list-valued conditions with action repeat (3 variants); a filter after a global document (2 routes); all orders of three filters through seven routes; {len(rule_dets)} rule shapes x {len(filt_dets)} filter shapes x {len(logsources)} log source relations x {len(targets)} rule-list forms" + (" (every third)" if tier == "quick" else ""),
                 "rule": "distinct (rule, filter, log sources, target); non-trivial = the filter applies", "samples": samples, "exhaustive": tier != "quick"}
